@@ -176,7 +176,10 @@ def mutate(draw, text, declared):
             cand = [k for k in idx if re.match(r"^[A-Za-z_]\w*$", toks[k]) and toks[k] in declared]
             if cand:
                 k = cand[draw(sint(0, len(cand) - 1))]
-                toks[k] = "zz9"
+                # one fresh name per identifier kind: ptgpp implicitly declares an unknown name used as a collection in a
+                # dependency (type parsec_data_collection_t*), so the same fresh name put in a collection position by one
+                # mutation and in an integer position by another is the kind clash excluded for renames above
+                toks[k] = {"int": "zz9", "collection": "ZZD", "flow": "ZZF", "class": "ZZT9"}[kind_of(toks[k])]
         elif op == "drop_body":
             cand = [k for k in idx if toks[k].startswith("BODY")]
             if cand:
